@@ -155,6 +155,20 @@ var funcmap = FuncMap{
 			b := false
 			return []Attribute{{Name: k, BoolVal: &b}}
 		}
+		if arr, ok := v.(*Array); ok && k == "class" {
+			// class=[a, cond && b, c]: entries that are false or null are dropped, as pug does
+			var classes []string
+			for _, item := range arr.items {
+				if b, isBool := item.(Bool); isBool && !bool(b) {
+					continue
+				}
+				if _, isNil := item.(Nil); isNil || item == nil {
+					continue
+				}
+				classes = append(classes, item.String())
+			}
+			return []Attribute{{Name: k, Val: JavaScriptExpression(strings.Join(classes, " ")), MustEscape: e}}
+		}
 		if v, ok := v.(Object); ok {
 			return []Attribute{{Name: k, Val: JavaScriptExpression(v.String()), MustEscape: e}}
 		}
